@@ -335,7 +335,8 @@ def transport_junk_case(ctx, i):
     kind of connection is meant to have delivers for the same pieces, and must not retain more."""
     from vf import transportx as T
     rng = ctx.rng("transport-junk", i)
-    kind, blob = [("server-tcp", False), ("client-tcp", False), ("client-tcp", True), ("server-tty", False)][i % 4]
+    kind, blob = [("server-tcp", False), ("client-tcp", False), ("client-tcp", True), ("server-tty", False),
+                  ("client-tcp-object", False), ("server-tcp", False), ("client-tcp-object", True), ("server-tty", False)][i % 8]
     flavour, jp = J.gen_stream(rng)
     stream = "".join(p[1] for p in jp)
     if rng.random() < 0.3:
